@@ -135,4 +135,25 @@ def run_unit(unit, rec):
                 rec.stat_max("oracle_gap", fs - low)
                 if bad:
                     _v(rec, bad[0], dict(sig, what=bad[1][:40]), bad[1], case, observed=dict(X=x, residual=resid), expected=dict(X=xs, target=t, vertices=V[:6]), script=_script(spec, t, optv, eps))
+    # ---- several targets in ONE call: row i of the result belongs to target i (orders whose sorting permutation is not an involution)
+    Tall = np.array([t for _, t in T if len(O.poly_vertices(Abar, t - c0, lo, hi))])  # reproducible targets only
+    if len(Tall) >= 3:
+        order = np.argsort(Tall.sum(1))
+        cyc = Tall[[order[1], order[2], order[0]] + [k_ for k_ in order[3:]]]  # totals: middle, high, low, ... (a 3-cycle)
+        for optv in ("min", "l2"):
+            rec.path()
+            rec.trans(1 + len(cyc))
+            sig = dict(base, option=optv, eps="1e-4", what="batch-row-assignment")
+            try:
+                Xb, _ = est.fit_underdetermined(cyc, underdetermined_opt=optv, l2_eps=1e-4)
+                Xb = np.asarray(Xb, dtype=float)
+                resid = np.max(np.abs(Xb @ Abar.T + c0 - cyc), axis=1)
+                okb = Xb.shape == (len(cyc), n) and bool(np.all(resid <= 1e-4 * 1.5 + 2e-7))
+            except Exception as e:  # noqa
+                _v(rec, "a", dict(sig, **exc_sig(e)), "fit_underdetermined of %d targets in one call raised %r" % (len(cyc), e), dict(option=optv, rows=len(cyc)))
+                continue
+            rec.outcome("batch-rows/%s" % ("ok" if okb else "bad"))
+            if not okb:
+                _v(rec, "b", dict(sig), "with %d targets in one call, a result row does not reproduce ITS target (max residual %.3g)" % (len(cyc), float(np.max(resid))), dict(option=optv, rows=len(cyc)), observed=Xb, expected=dict(targets=cyc),
+                   script=B.script_est(spec) + "T = np.array(%r)\nX, Bp = est.fit_underdetermined(T, underdetermined_opt=%r, l2_eps=1e-4)\nprint(np.abs(Bp - T).max(1))\n" % (cyc.tolist(), optv))
     rec.sample(dict(system=names, targets=len(T), options=OPTS), cap=1)
